@@ -113,6 +113,23 @@ pub fn run(prop: &str, tier: Tier) -> i32 {
         prop_of,
     };
     fill_report(&mut rep, plan.run(), "S structured family, deviation-bounded");
+    // (2b) sparse 5-argument frameworks (one per isomorphism class), deviation-bounded
+    {
+        let k = if thorough { 7 } else { 6 };
+        let plan = SweepPlan {
+            graphs: named(crate::universe::iso_representatives_sparse(5, k), "U5iso"),
+            presentations: vec![Presentation::Compact],
+            kinds: kinds.clone(),
+            sems: all_sems(),
+            certs: certs.clone(),
+            lists: ArgLists::Single,
+            with_lib_default: false,
+            cfgs: vec![bounded(if thorough { 2 } else { 1 }, FvPolicy::False)],
+            with_cadical: true,
+            prop_of,
+        };
+        fill_report(&mut rep, plan.run(), &format!("one representative per isomorphism class of 5-argument frameworks with <= {} attacks, D<={}", k, if thorough { 2 } else { 1 }));
+    }
     // (3) thorough: U(4) with D <= 1
     if thorough {
         let plan = SweepPlan {
